@@ -126,6 +126,7 @@ class MultiTypeMap(dict):
         self.name = name
         self.dispatch_id = count()
         self.all = {}
+        self.successor = None
         self.errors = {}
 
     def mro(self, obj_t_tup):
@@ -429,7 +430,21 @@ class MultiTypeMap(dict):
 
         return True
 
+    def retire(self, successor):
+        """Take this table out of service.
+
+        Methods adapted for an earlier build may still hold it (a running
+        generator, a handler obtained with resolve): their lookups forget
+        what this table knew and go to the table successor() returns.
+        """
+        self.clear()
+        self.errors.clear()
+        self.all.clear()
+        self.successor = successor
+
     def __missing__(self, obj_t_tup):
+        if self.successor is not None:
+            return self.successor()[obj_t_tup]
         if obj_t_tup and isinstance(obj_t_tup[0], CodeType):
             real_tup = obj_t_tup[1:]
             if real_tup not in self and real_tup not in self.errors:
